@@ -28,3 +28,23 @@ structure ColRow where
   deriving DecidableEq, Repr
 
 end TrackVerif.Gen
+
+namespace TrackVerif.Gen
+
+/-- one position of an anchored fixed-length regular expression: the rune ranges accepted
+    there and the capture group (0 = none) the position belongs to -/
+structure RePos where
+  cls : List (Nat × Nat)
+  group : Nat
+  deriving DecidableEq, Repr
+
+/-- a regexp literal of `matcher.go`, parsed by `regexp/syntax` in the translator -/
+structure RePattern where
+  source : String
+  anchoredBegin : Bool
+  anchoredEnd : Bool
+  groups : Nat
+  positions : List RePos
+  deriving DecidableEq, Repr
+
+end TrackVerif.Gen
